@@ -279,6 +279,12 @@ func (s *Stream) sendMessageWithEnd(ctx context.Context, data []byte, end byte) 
 		return fmt.Errorf("failed to write frame: %w", err)
 	}
 
+	// An outbound message is open exactly while its last frame on the wire said
+	// "more follows" -- whichever entry point sent it (the buffered writer's
+	// threshold flush, SendPartialMessage, or WriteFrame from the typed message
+	// layer). ExportCryptoState refuses to hand a stream over in that state.
+	s.sendPartial = end == EndFlagPartial
+
 	return nil
 }
 
